@@ -325,7 +325,31 @@ fn check_purl_level<T>(
 }
 
 fn via_builder(c: &Checksum<'_>, model: &Model, typed: bool, spell_seed: u64, at: &str, log: &mut Log) -> Result<(), Violation> {
-    let builder = GenericPurlBuilder::new(String::from("generic"), "n");
+    // The builder the checksum goes into is not always a fresh one: depending on the scenario it
+    // already holds other qualifiers - some with empty values, sorting before and after `checksum` -
+    // and, for the typed lane, an older checksum that the new one has to replace.
+    let surroundings = (spell_seed >> 8) % 6;
+    let mut builder = GenericPurlBuilder::new(String::from("generic"), "n");
+    let around: &[(&str, &str)] = match surroundings {
+        1 => &[("arch", ""), ("zzz", "1")],
+        2 => &[("a", "1"), ("b", ""), ("z", "")],
+        3 => &[("arch", "x"), ("download_url", "https://example.com/a?b=c&d")],
+        4 => &[("checksum", "ff:00,ee:11")],
+        5 => &[("arch", ""), ("checksum", "old:00"), ("vcs_url", "git+https://example.com/r@1")],
+        _ => &[],
+    };
+    for (k, v) in around {
+        // An older checksum only makes sense where the new one replaces it (typed lane, or the text
+        // lane, whose with_qualifier overwrites).
+        builder = guarded(move || builder.with_qualifier(*k, *v))
+            .map_err(|p| violation!("C12.panic_in_builder", "{at}: with_qualifier({k:?}) panicked: {p}"))?
+            .map_err(|e| violation!("C12.builder_refused_valid_checksum", "{at}: with_qualifier({k:?}, {v:?}) failed: {e}"))?;
+    }
+    if model.is_empty() {
+        // Nothing replaces an older checksum then; keep the lane as it was for the empty set.
+        builder = GenericPurlBuilder::new(String::from("generic"), "n");
+    }
+    ev!(log, "{at} builder surroundings {around:?}");
     let builder = if typed {
         let copy = c.clone();
         let r = guarded(move || builder.try_with_typed_qualifier(Some(copy))).map_err(|p| {
@@ -359,7 +383,11 @@ fn via_builder(c: &Checksum<'_>, model: &Model, typed: bool, spell_seed: u64, at
         use purl::{PackageType, PurlBuilder};
         let text = respell(model, spell_seed);
         let built = guarded(move || {
-            PurlBuilder::new(PackageType::Cargo, "n").with_qualifier("checksum", text).and_then(|b| {
+            let mut b = PurlBuilder::new(PackageType::Cargo, "n");
+            if surroundings % 2 == 1 {
+                b = b.with_qualifier("arch", "")?.with_qualifier("vcs_url", "x")?;
+            }
+            b.with_qualifier("checksum", text).and_then(|b| {
                 b.build().map_err(|e| match e {
                     purl::PackageError::Parse(p) => p,
                     _ => purl::ParseError::InvalidPackageType,
